@@ -291,6 +291,7 @@ CHECKS = {
             {'fn': C + 'H_C20_2_PrecompileDispatch', 'must_reach': ['short-input']},
             {'fn': H + 'H_C20_3_BeginBlockRing', 'must_reach': ['pruned', 'kept']},
             {'fn': P + 'rpc/ethereum/pubsub.H_C20_4_EventBus', 'native': False, 'over': {'max-decisions': 3000, 'max-paths': 400000}, 'must_reach': ['quiesced', 'all-events-delivered']},
+            {'fn': P + 'rpc/ethereum/pubsub.H_C20_5_TopicReuse', 'native': False, 'over': {'max-decisions': 3000}, 'must_reach': ['re-added']},
             {'fn': P + 'rpc/ethereum/pubsub.H_C20_4b_EventBusTwoSubscribers', 'native': False, 'thorough_only': True, 'over': {'max-decisions': 3000, 'max-paths': 1000000}, 'must_reach': ['quiesced', 'all-events-delivered']},
             {'fn': P + 'rpc/ethereum/pubsub.H_C20_4c_EventBusTwoPreemptions', 'native': False, 'thorough_only': True, 'over': {'max-decisions': 3000, 'max-paths': 1000000}, 'must_reach': ['quiesced', 'all-events-delivered']},
             {'fn': T + 'H_C13_1_Block2', 'over': {'max-decisions': 3000, 'max-paths': 100000}},
